@@ -49,6 +49,14 @@ GROUPBY-KEY    itertools.groupby(seq, key=K) groups CONSECUTIVE elements: `seq`
                on another key, a later run of the same key starts a second
                group (and `d[k] = list(group)` then forgets the first).
 
+MEMO-KEY       `if key not in self.D: self.D[key] = f(p, q)`: every parameter
+               the stored value is computed from must be an element of the
+               key AS IT IS; a parameter that is missing from the key, or
+               only enters it through a function (`(self._geomid(output),
+               zone)`), makes two different requests share one entry.  The
+               two memos of C15 (Use.get_task, RunTaskFactory.make) have
+               their own, finer analysis (sa/rules/memo.py) and are skipped.
+
 Expected instances on the shipped code: 0 besides the documented
 exceptions of ALLOW; the rules are exercised by mutants in every property
 that uses them.'''
@@ -363,6 +371,61 @@ def visited_key_sites(func):
     return out
 
 
+MEMO_KEY_SKIP = {'valjean.cosette.use:Use.get_task',
+                 'valjean.cosette.run:RunTaskFactory.make'}
+
+
+def memo_key_sites(func):
+    '''[(store node, key expr, parameter, 'missing' | 'lossy')].'''
+    out = []
+    params = [p_ for p_ in func.params if p_ not in ('self', 'cls')]
+    if not params:
+        return out
+    defs = {}
+    for node in walk_local(func.node):
+        if isinstance(node, ast.Assign) and len(node.targets) == 1 and \
+                isinstance(node.targets[0], ast.Name):
+            defs.setdefault(node.targets[0].id, []).append(node.value)
+
+    def expand(expr, depth=0):
+        if isinstance(expr, ast.Name) and len(defs.get(expr.id, [])) == 1 \
+                and depth < 3:
+            return expand(defs[expr.id][0], depth + 1)
+        return expr
+    for node in walk_local(func.node):
+        if not (isinstance(node, ast.Assign) and len(node.targets) == 1 and
+                isinstance(node.targets[0], ast.Subscript) and
+                _self_attr(node.targets[0].value)):
+            continue
+        cache = txt(node.targets[0].value)
+        key = node.targets[0].slice
+        tested = any(
+            isinstance(c, ast.Compare) and len(c.ops) == 1 and isinstance(
+                c.ops[0], (ast.In, ast.NotIn)) and txt(c.left) == txt(key)
+            and txt(c.comparators[0]) == cache
+            for c in walk_local(func.node))
+        if not tested:
+            continue
+        kexpr = expand(key)
+        elts = kexpr.elts if isinstance(kexpr, ast.Tuple) else [kexpr]
+        bare = {e.id for e in elts if isinstance(e, ast.Name)}
+        inside = {n.id for e in elts if not isinstance(e, ast.Name)
+                  for n in ast.walk(e) if isinstance(n, ast.Name)}
+        value = expand(node.value)
+        used = {n.id for n in ast.walk(value) if isinstance(n, ast.Name)}
+        # one more level: locals of the value
+        for nam in list(used):
+            if len(defs.get(nam, [])) == 1:
+                used |= {n.id for n in ast.walk(defs[nam][0])
+                         if isinstance(n, ast.Name)}
+        for par in params:
+            if par not in used or par in bare:
+                continue
+            out.append((node, kexpr, par,
+                        'lossy' if par in inside else 'missing'))
+    return out
+
+
 def _one_shot_value(program, func, expr, depth=0):
     if isinstance(expr, ast.GeneratorExp):
         return True
@@ -589,6 +652,19 @@ def check_patterns(ctx, prop_id, extra_modules=()):
                                f'{func.name}: {txt(node)[:60]}', node,
                                'a one-shot iterator kept on the object: the '
                                'first reader exhausts it')
+            # MEMO-KEY
+            if func.key not in MEMO_KEY_SKIP:
+                for node, kexpr, par, how in memo_key_sites(func):
+                    report('MEMO-KEY', func,
+                           f'{func.name}: {txt(node.targets[0])[:40]} keyed '
+                           f'by {txt(kexpr)[:50]}: the stored value is '
+                           f'computed from `{par}`, which '
+                           + ('only enters the key through a function'
+                              if how == 'lossy' else 'is not in the key'),
+                           node,
+                           'two requests that differ in that parameter '
+                           'share one entry: the second is served the '
+                           'value computed for the first')
             # GROUPBY-KEY
             fdefs = {}
             for node in walk_local(func.node):
@@ -779,4 +855,4 @@ def check_patterns(ctx, prop_id, extra_modules=()):
         ctx.holds('PATTERNS', prop_id,
                   f'{n_cls} classes / {n_fun} functions of the anchored '
                   f'files: none of CLASS-STATE, ITER-FIELD, MUTABLE-DEFAULT, '
-                  f'ZIP-SET, LOOP-ALIAS, GEN-REUSE, MEMO-STALE, GLOBAL-STATE, VISITED-KEY, GROUPBY-KEY', nontrivial=False)
+                  f'ZIP-SET, LOOP-ALIAS, GEN-REUSE, MEMO-STALE, GLOBAL-STATE, VISITED-KEY, GROUPBY-KEY, MEMO-KEY', nontrivial=False)
